@@ -908,3 +908,106 @@ package mq
 //@   loop 0:
 //@     assigns elems(res)
 //@     decreases len(p.filters) - rangeindex
+
+// ---------------------------------------------------------------- frame sizes (C10 C02)
+// rl is the remaining length written into the fixed header: the closed-form size of variable header
+// and payload by the MQTT field tables (a property is omitted when it has the zero value).
+
+//@ func (*ConnAck).fill
+//@   let pl = (p.receiveMax == 0 ? 0 : 3) + (p.sessionExpiryInterval == 0 ? 0 : 5) + (p.maxQoS == 0 ? 0 : 2) + (p.retainAvailable ? 2 : 0) + (p.maxPacketSize == 0 ? 0 : 5) + (len(p.assignedClientID) == 0 ? 0 : 3 + len(p.assignedClientID)) + (p.topicAliasMax == 0 ? 0 : 3) + (len(p.reasonString) == 0 ? 0 : 3 + len(p.reasonString)) + (p.wildcardSubAvailable ? 2 : 0) + (p.subIdentifiersAvailable ? 2 : 0) + (p.sharedSubAvailable ? 2 : 0) + (p.serverKeepAlive == 0 ? 0 : 3) + (len(p.responseInformation) == 0 ? 0 : 3 + len(p.responseInformation)) + (len(p.serverReference) == 0 ? 0 : 3 + len(p.serverReference)) + (len(p.authMethod) == 0 ? 0 : 3 + len(p.authMethod)) + (len(p.authData) == 0 ? 0 : 3 + len(p.authData)) + upwidth(p.UserProperties, len(p.UserProperties))
+//@   let rl = 2 + specVbWidth(uint(pl)) + pl
+//@   ensures result == i + 1 + specVbWidth(uint(rl)) + rl                                   #C10 #C02
+
+//@ func (*Publish).fill
+//@   let pl = (p.payloadFormat ? 2 : 0) + (p.messageExpiryInterval == 0 ? 0 : 5) + (p.topicAlias == 0 ? 0 : 3) + (len(p.responseTopic) == 0 ? 0 : 3 + len(p.responseTopic)) + (len(p.correlationData) == 0 ? 0 : 3 + len(p.correlationData)) + (len(p.contentType) == 0 ? 0 : 3 + len(p.contentType)) + upwidth(p.UserProperties, len(p.UserProperties)) + sidwidth(p.subscriptionIDs, len(p.subscriptionIDs))
+//@   let rl = 2 + len(p.topicName) + (((p.fixed & 6) == 2 || (p.fixed & 6) == 4) ? 2 : 0) + specVbWidth(uint(pl)) + pl + len(p.payload)
+//@   ensures result == i + 1 + specVbWidth(uint(rl)) + rl                                   #C10 #C02
+
+//@ func (*PubAck).fill
+//@   let pl = (len(p.reason) == 0 ? 0 : 3 + len(p.reason)) + upwidth(p.UserProperties, len(p.UserProperties))
+//@   let rl = 2 + (p.reasonCode == 0 ? 0 : 1) + (pl > 0 ? specVbWidth(uint(pl)) + pl : 0)
+//@   ensures result == i + 1 + specVbWidth(uint(rl)) + rl                                   #C10 #C02
+
+//@ func (*PubRec).fill
+//@   let pl = (len(p.reason) == 0 ? 0 : 3 + len(p.reason)) + upwidth(p.UserProperties, len(p.UserProperties))
+//@   let rl = 2 + (p.reasonCode == 0 ? 0 : 1) + (pl > 0 ? specVbWidth(uint(pl)) + pl : 0)
+//@   ensures result == i + 1 + specVbWidth(uint(rl)) + rl                                   #C10 #C02
+
+//@ func (*PubRel).fill
+//@   let pl = (len(p.reason) == 0 ? 0 : 3 + len(p.reason)) + upwidth(p.UserProperties, len(p.UserProperties))
+//@   let rl = 2 + (p.reasonCode == 0 ? 0 : 1) + (pl > 0 ? specVbWidth(uint(pl)) + pl : 0)
+//@   ensures result == i + 1 + specVbWidth(uint(rl)) + rl                                   #C10 #C02
+
+//@ func (*PubComp).fill
+//@   let pl = (len(p.reason) == 0 ? 0 : 3 + len(p.reason)) + upwidth(p.UserProperties, len(p.UserProperties))
+//@   let rl = 2 + (p.reasonCode == 0 ? 0 : 1) + (pl > 0 ? specVbWidth(uint(pl)) + pl : 0)
+//@   ensures result == i + 1 + specVbWidth(uint(rl)) + rl                                   #C10 #C02
+
+//@ func (*Subscribe).fill
+//@   let pl = upwidth(p.UserProperties, len(p.UserProperties)) + (p.subscriptionID == nil ? 0 : (*p.subscriptionID == 0 ? 0 : 1 + specVbWidth(uint(*p.subscriptionID))))
+//@   let rl = 2 + specVbWidth(uint(pl)) + pl + tfwidth(p.filters, len(p.filters))
+//@   ensures result == i + 1 + specVbWidth(uint(rl)) + rl                                   #C10 #C02
+
+//@ func (*SubAck).fill
+//@   let pl = (len(p.reasonString) == 0 ? 0 : 3 + len(p.reasonString)) + upwidth(p.UserProperties, len(p.UserProperties))
+//@   let rl = 2 + specVbWidth(uint(pl)) + pl + len(p.reasonCodes)
+//@   ensures result == i + 1 + specVbWidth(uint(rl)) + rl                                   #C10 #C02
+
+//@ func (*UnsubAck).fill
+//@   let pl = (len(p.reasonString) == 0 ? 0 : 3 + len(p.reasonString)) + upwidth(p.UserProperties, len(p.UserProperties))
+//@   let rl = 2 + specVbWidth(uint(pl)) + pl + len(p.reasonCodes)
+//@   ensures result == i + 1 + specVbWidth(uint(rl)) + rl                                   #C10 #C02
+
+//@ func (*Unsubscribe).fill
+//@   let pl = upwidth(p.UserProperties, len(p.UserProperties))
+//@   let rl = 2 + specVbWidth(uint(pl)) + pl + wswidth(p.filters, len(p.filters))
+//@   ensures result == i + 1 + specVbWidth(uint(rl)) + rl                                   #C10 #C02
+
+//@ func (*Disconnect).fill
+//@   let pl = upwidth(p.UserProperties, len(p.UserProperties))
+//@   let rl = ((p.reasonCode == 0 && pl == 0) ? 0 : 1 + specVbWidth(uint(pl)) + pl)
+//@   ensures result == i + 1 + specVbWidth(uint(rl)) + rl                                   #C10 #C02
+
+//@ func (*Auth).fill
+//@   let pl = (len(p.authMethod) == 0 ? 0 : 3 + len(p.authMethod)) + (len(p.authData) == 0 ? 0 : 3 + len(p.authData)) + (len(p.reasonString) == 0 ? 0 : 3 + len(p.reasonString)) + upwidth(p.UserProperties, len(p.UserProperties))
+//@   let rl = ((p.reasonCode == 0 && pl == 0) ? 0 : 1 + specVbWidth(uint(pl)) + pl)
+//@   ensures result == i + 1 + specVbWidth(uint(rl)) + rl                                   #C10 #C02
+
+//@ func (*Connect).fill
+//@   let pl = (p.receiveMax == 0 ? 0 : 3) + (p.sessionExpiryInterval == 0 ? 0 : 5) + (p.maxPacketSize == 0 ? 0 : 5) + (p.topicAliasMax == 0 ? 0 : 3) + (p.requestResponseInfo ? 2 : 0) + (p.requestProblemInfo ? 2 : 0) + (len(p.authMethod) == 0 ? 0 : 3 + len(p.authMethod)) + (len(p.authData) == 0 ? 0 : 3 + len(p.authData)) + upwidth(p.UserProperties, len(p.UserProperties))
+//@   let wpl = (p.willDelayInterval == 0 ? 0 : 5) + (p.will.payloadFormat ? 2 : 0) + (p.will.messageExpiryInterval == 0 ? 0 : 5) + (len(p.will.contentType) == 0 ? 0 : 3 + len(p.will.contentType)) + (len(p.will.responseTopic) == 0 ? 0 : 3 + len(p.will.responseTopic)) + (len(p.will.correlationData) == 0 ? 0 : 3 + len(p.will.correlationData)) + upwidth(p.will.UserProperties, len(p.will.UserProperties))
+//@   let willw = ((p.flags & 4) != 0 ? specVbWidth(uint(wpl)) + wpl + 2 + len(p.will.topicName) + 2 + len(p.willPayload) : 0)
+//@   let credw = ((p.flags & 128) != 0 ? 2 + len(p.username) : 0) + ((p.flags & 64) != 0 ? 2 + len(p.password) : 0)
+//@   let rl = 2 + len(p.protocolName) + 1 + 1 + 2 + specVbWidth(uint(pl)) + pl + 2 + len(p.clientID) + willw + credw
+//@   ensures result == i + 1 + specVbWidth(uint(rl)) + rl                                   #C10 #C02
+
+//@ func (*PingReq).fill
+//@   ensures result == i + 2                                                                #C10 #C02
+
+//@ func (*PingResp).fill
+//@   ensures result == i + 2                                                                #C10 #C02
+
+//@ func (*UserProperties).properties
+//@   ensures result == upwidth(*p, len(*p))                                                 #C10 #C02
+//@   loop 0:
+//@     invariant i - n == upwidth(*p, rangeindex + 1)                                       #C10 #C02
+
+//@ func (*Publish).properties
+//@   loop 0:
+//@     invariant i - entry_i == sidwidth(p.subscriptionIDs, rangeindex + 1)                 #C10 #C02
+
+//@ func (*Subscribe).payload
+//@   loop 0:
+//@     invariant i - n == tfwidth(p.filters, rangeindex + 1)                                #C10 #C02
+
+//@ func (*Unsubscribe).payload
+//@   loop 0:
+//@     invariant i - n == wswidth(p.filters, rangeindex + 1)                                #C10 #C02
+
+//@ func (*SubAck).payload
+//@   loop 0:
+//@     invariant i - n == rangeindex + 1                                                    #C10 #C02
+
+//@ func (*UnsubAck).payload
+//@   loop 0:
+//@     invariant i - n == rangeindex + 1                                                    #C10 #C02
